@@ -11,3 +11,7 @@ import AGV.Props.C18
 #print axioms AGV.Props.C18.c18_witness_interfaces_null
 #print axioms AGV.Props.C18.c18_witness_possible_lists_interfaces
 #print axioms AGV.Props.C18.c18_witness_dyn_implements_dropped
+#print axioms AGV.Props.C18.c18_visible_complete
+#print axioms AGV.Props.C18.c18_visible_closed
+#print axioms AGV.Props.C18.c18_roundtrip_wf
+#print axioms AGV.Props.C18.c18_roundtrip_refuted
